@@ -380,7 +380,7 @@ int main(int argc, char* argv[])
             solver->parameter("solver::quasi::initialization") = e.m_domain[static_cast<size_t>(rng.range(0, static_cast<int64_t>(e.m_domain.size()) - 1))];
         }
         quad_info_t qinfo;
-        const auto  function = make_quadratic(rng, rng.range(1, 16), qinfo);
+        const auto  function = make_quadratic(rng, rng.coin(1, 3) ? rng.range(8, 16) : rng.range(1, 16), qinfo, rng.coin(1, 3));
         run_cfg_t   rc;
         rc.eps   = 1e-8;
         rc.quad  = true;
